@@ -2,6 +2,7 @@ import FimVerif.Proofs.Lemmas.C02Props
 import FimVerif.Proofs.Lemmas.C02Tree
 import FimVerif.Proofs.Lemmas.C02Check
 import FimVerif.Proofs.Lemmas.C02Graph
+import FimVerif.Proofs.Lemmas.C02Routes
 /-!
 # C02 — sliver ↔ graph / dictionary / JSON conversion preserves every settable field
 
@@ -201,10 +202,6 @@ theorem unset_frame (p p' : Props P) (k g : String) (h : unsetProperty p k = .ok
 
 end
 
-/-- names whose unset is *not* routed to their own graph property by `SLIVER_PROPERTY_TO_GRAPH` (known findings
-`C02:unset_get:stitch_node:still-set`; `image_type` shares `ImageRef` with `image_ref` and is unset through it) -/
-def unsetExempt : List String := ["image_type", "stitch_node"]
-
 /-- the unset table sends every other rebuilt property name to the graph property its from-row reads, and every
 entry of the table that names a property of a kind points at that kind's graph property -/
 def unsetOK (T : KindTable) : Bool :=
@@ -239,6 +236,177 @@ example : unsetProperty (Props.empty.set "Site" "RENC") "site" = .ok ((Props.emp
 example : unsetProperty (Props.empty : Props String) "name" = .error "query" :=
   unset_identity_rejected _ "name" "Name" (by decide) (by decide)
 
+
+/-! ### every route to a property, every property, every element class
+
+`elemClasses` (regenerated every run from behavioural probes of `fim/user/*.py`: what each python `property` of each
+element class reads, what `el.<attr> = v` and `el.<attr> = None` hand to `set_property` / `set_properties` /
+`unset_property`, what `set_property(p, None)` does) lists every attribute-style getter/setter pair of every element
+class.  `routes_ok` checks the complete table; the theorems below lift `set_get` / `unset_get` to **every** route. -/
+
+/-- Every element class routes `set_property(p, None)` to `unset_property(p)`; every python property of every element
+class is named after the sliver property it reads, that property is one its kind's table rebuilds, a `.data` getter sits
+exactly on the JSON-blob properties, the cached name changes only after the graph accepted it; every attribute *with a
+setter* hands a value to `set_property` unchanged (`direct`) or wrapped in the very class its from-row builds
+(`jsonWrap`), or pairs the two halves of `ImageRef` (`pair`); and assigning `None` passes `None` on / calls
+`unset_property` (for `image_type`, which is exempt from unsetting, the pair route writes nothing). -/
+theorem routes_ok : elemClasses.all classOK = true := by decide
+
+/-- per kind: every rebuilt property outside the image pair has a to-row of its own; every rebuilt property that is not
+exempt and not an identity property is mapped by `SLIVER_PROPERTY_TO_GRAPH` to the graph property its from-row reads,
+reads `None` when that is absent and has a setter that accepts `None` -/
+theorem rows_ok : tables.all rowsOK = true := by decide
+
+section
+variable {V P : Type}
+
+/--
+**set then get, by every route**: for every kind table `T`, every element class `E` of that kind, every property `f.key`
+the table rebuilds (other than the two halves of the image pair, see the known findings), and every route — `set_property`,
+`set_properties`, or assignment to *any* attribute of `E` that has a setter and names that property — the node
+afterwards makes the from-row of the property read the value back, for every value obeying the codec law of its row;
+`get_property` and the attribute getter (`attrGet`; a `.data` getter shows the same object's data) return it whenever
+the node is readable at all.
+-/
+theorem set_get_every_route (C : Codecs V P) (T : KindTable) (hT : T ∈ tables) (E : ElemClass) (hE : E ∈ elemClasses)
+    (f : FromRow) (hf : f ∈ T.fromRows) (hp : f.key ∉ pairKeys) (v : V)
+    (hlaw : readVal C f (C.enc (rowOf T f).enc [v]) = .ok (some v))
+    (route : SetRoute)
+    (hroute : match route with
+      | .attr r => r ∈ E.routes ∧ r.prop = f.key ∧ r.onValue ≠ OnValue.none
+      | _ => True)
+    (wn : String → V) (fresh : Fields V) (p : Props P) :
+    ∃ p', setVia C T E wn fresh p f.key v route = .ok p' ∧ readRow C p' f = .ok (some v) ∧
+      (∀ s', fromProps C T p' = .ok s' → getProperty C T p' f.key = .ok (some v) ∧
+        ∀ a ∈ E.routes, a.prop = f.key → attrGet C T p' a = .ok (some v)) := by
+  have hTok : tableOK T = true := List.all_eq_true.mp tables_ok T hT
+  have hRok : rowsOK T = true := List.all_eq_true.mp rows_ok T hT
+  have hEok : classOK E = true := List.all_eq_true.mp routes_ok E hE
+  obtain ⟨hr, hk, hg⟩ := rowsOK_single hRok f hf hp
+  have hw : route.Writes E f.key := by
+    cases route with
+    | setProperty => trivial
+    | setProperties => trivial
+    | attr r =>
+      obtain ⟨hr', hrk, hrv⟩ := hroute
+      have := classOK_writes hEok r hr' hrv (by rw [hrk]; exact hp)
+      rw [hrk] at this
+      exact this
+  refine ⟨setProperty C T fresh p f.key v, setVia_eq C T E wn fresh p f.key v route hw, ?_⟩
+  obtain ⟨h1, h2⟩ := set_get C T hTok fresh p (rowOf T f) hr f hf f.key v hk rfl hg hlaw
+  refine ⟨h1, fun s' hs' => ⟨h2 s' hs', fun a _ hak => ?_⟩⟩
+  unfold attrGet
+  rw [hak]
+  exact h2 s' hs'
+
+/--
+**unset then get, by every route**: for every kind table, every element class of that kind, every property the table
+rebuilds (other than the exempt `image_type` / `stitch_node`, see `unset_counterexample` and the known findings, and the
+identity properties, whose unset is rejected: `unset_identity_rejected`), a successful unset by **any** route —
+`unset_property(k)`, `set_property(k, None)`, or `el.<attr> = None` for any attribute of the class that has a setter and
+names that property — leaves a node on which the property reads absent.
+-/
+theorem unset_get_every_route (C : Codecs V P) (T : KindTable) (hT : T ∈ tables) (E : ElemClass) (hE : E ∈ elemClasses)
+    (f : FromRow) (hf : f ∈ T.fromRows) (hx : f.key ∉ unsetExempt) (hid : f.gprop ∉ noUnset)
+    (route : UnsetRoute)
+    (hroute : match route with
+      | .attrNone r => r ∈ E.routes ∧ r.prop = f.key ∧ r.onValue ≠ OnValue.none
+      | _ => True)
+    (wn : String → V) (fresh : Fields V) (p p' : Props P)
+    (h : unsetVia C T E wn fresh p f.key route = .ok p') :
+    readRow C p' f = .ok none ∧
+      (∀ s', fromProps C T p' = .ok s' → getProperty C T p' f.key = .ok none ∧
+        ∀ a ∈ E.routes, a.prop = f.key → attrGet C T p' a = .ok none) := by
+  have hTok : tableOK T = true := List.all_eq_true.mp tables_ok T hT
+  have hRok : rowsOK T = true := List.all_eq_true.mp rows_ok T hT
+  have hEok : classOK E = true := List.all_eq_true.mp routes_ok E hE
+  obtain ⟨habs, hn, hmap⟩ := rowsOK_unset hRok f hf hx hid
+  have hu : route.Unsets E f.key := by
+    cases route with
+    | unsetProperty => trivial
+    | setPropertyNone =>
+      simp only [classOK, Bool.and_eq_true] at hEok
+      exact hEok.1.1.1
+    | attrNone r =>
+      obtain ⟨hr', hrk, hrv⟩ := hroute
+      have := classOK_unsets hEok r hr' hrv (by rw [hrk]; exact hx)
+      rw [hrk] at this
+      exact this
+  rw [unsetVia_eq C T E wn fresh p f.key route hu] at h
+  have h1 := unset_get C p p' f.key f hmap habs hn h
+  refine ⟨h1, fun s' hs' => ?_⟩
+  have hg : getProperty C T p' f.key = .ok none := by
+    have := fromRowsGo_ok C _ T.fromRows Fields.empty s' (tableOK_nodup_k hTok) hs' f hf
+    unfold getProperty
+    rw [hs']
+    rw [h1] at this
+    injection this with h2
+    simp only [← h2]
+  refine ⟨hg, fun a _ hak => ?_⟩
+  unfold attrGet
+  rw [hak]
+  exact hg
+
+/-- every unset route of an identity property (`name`, `type`) is rejected and leaves the node alone -/
+theorem unset_identity_every_route (C : Codecs V P) (T : KindTable) (E : ElemClass) (hE : E ∈ elemClasses) (k g : String)
+    (hmap : mapUnset k = some g) (hid : g ∈ noUnset) (route : UnsetRoute)
+    (hroute : match route with
+      | .attrNone r => r ∈ E.routes ∧ r.prop = k ∧ r.onValue ≠ OnValue.none
+      | _ => True)
+    (hx : k ∉ unsetExempt) (wn : String → V) (fresh : Fields V) (p : Props P) :
+    unsetVia C T E wn fresh p k route = .error "query" := by
+  have hEok : classOK E = true := List.all_eq_true.mp routes_ok E hE
+  have hu : route.Unsets E k := by
+    cases route with
+    | unsetProperty => trivial
+    | setPropertyNone =>
+      simp only [classOK, Bool.and_eq_true] at hEok
+      exact hEok.1.1.1
+    | attrNone r =>
+      obtain ⟨hr', hrk, hrv⟩ := hroute
+      have := classOK_unsets hEok r hr' hrv (by rw [hrk]; exact hx)
+      rw [hrk] at this
+      exact this
+  rw [unsetVia_eq C T E wn fresh p k route hu]
+  exact unset_identity_rejected p k g hmap hid
+
+end
+
+/-! non-vacuity of the route theorems: the `user_data` attribute of a `Node` (the JSON-blob setter), with a value
+that obeys the codec law, through the attribute route -/
+
+def userDataRoute : AttrRoute :=
+  (elemNode.routes.find? (fun r => r.attr == "user_data")).getD default
+def userDataFrom : FromRow :=
+  (nodeTable.fromRows.find? (fun f => f.key == "user_data")).getD default
+
+example : userDataRoute ∈ elemNode.routes ∧ userDataRoute.prop = userDataFrom.key ∧ userDataRoute.onValue ≠ OnValue.none := by decide
+example : userDataFrom ∈ nodeTable.fromRows ∧ userDataFrom.key ∉ pairKeys ∧ userDataFrom.key ∉ unsetExempt ∧
+    userDataFrom.gprop ∉ noUnset := by decide
+example : readVal concrete userDataFrom (concrete.enc (rowOf nodeTable userDataFrom).enc [Val.jdata "UserData" "{\"a\": 1}"]) =
+    .ok (some (Val.jdata "UserData" "{\"a\": 1}")) := by decide
+/-- a node that holds user data: assigning `None` to the attribute succeeds (so the hypothesis of
+`unset_get_every_route` is satisfiable) -/
+example : ∃ p', unsetVia concrete nodeTable elemNode (fun c => Val.jdata c "{}") freshFields
+    (Props.empty.set "UserData" "{}") "user_data" (.attrNone userDataRoute) = .ok p' := by
+  refine ⟨(Props.empty.set "UserData" "{}").erase "UserData", ?_⟩
+  rw [unsetVia_eq _ _ _ _ _ _ _ _ (by
+    show userDataRoute ∈ elemNode.routes ∧ userDataRoute.prop = "user_data" ∧ _
+    decide)]
+  unfold unsetProperty
+  have : mapUnset "user_data" = some "UserData" := by decide
+  rw [this]
+  simp [noUnset, Props.set]
+
+/-- `image_type` is exempt: assigning `None` to the attribute (the pair route with `None`) writes nothing, the stored
+type stays readable (known finding `C02:unset_get:image_type:still-set:ctx=image-stored`; replayed on the
+implementation by corpus/C02/known_elem_image_pair_stored.json) -/
+theorem attr_unset_image_type_counterexample :
+    (match attrAssign concrete nodeTable elemNode (fun c => Val.jdata c "{}") freshFields
+        ((Props.empty.set "Name" "n1").set "ImageRef" "img,qcow2")
+        ((elemNode.routes.find? (fun r => r.attr == "image_type")).getD default) none with
+     | .ok p' => p' "ImageRef"
+     | .error _ => none) = some "img,qcow2" := by decide
 
 /-! ### deep dictionary (and JSON) round trip, by structural induction over the sliver tree -/
 
@@ -344,7 +512,7 @@ Proof: `add_built` (what the writer leaves in the store, by induction over the t
 theorem graph_roundtrip_partial (C : Codecs V P) (s : Sliver V) (hk : s.kind ≠ "component") (hs : Shaped s)
     (hw : WF C s) (hnd : (idsOf s).Nodup) : graphRoundtrip (P := P) C s = .ok (gnorm C s) := by
   obtain ⟨g', hadd, hb, _⟩ := add_built C s (AGraph.empty : AGraph P) none hs
-    (fun i _ => ⟨rfl, rfl⟩) hnd (fun q hq => by cases hq)
+    (fun i _ => ⟨rfl, rfl⟩) hnd (fun q hq => by cases hq) (fun q hq => by cases hq)
   have hr : rank s.kind ≤ 5 := by unfold rank; split <;> (try split) <;> (try split) <;> omega
   have hbuild := build_built C g' s none 5 hb hs hw (fun q hq => by cases hq) hr
   unfold graphRoundtrip
@@ -377,6 +545,7 @@ theorem graph_roundtrip_component_partial (C : Codecs V P) (s : Sliver V) (hk : 
     subst hgen
     simp [addNodeTo, AGraph.empty, upd, this]
   obtain ⟨g', hadd, hb, hframe⟩ := add_built C s g0 (some "c02-parent") hs hfresh hnd (fun q hq => by cases hq; exact hp)
+    (fun q hq => by cases hq; subst hgen; simp [addNodeTo, AGraph.empty, upd])
   have hpn : g'.node "c02-parent" = [(classOf "node", Props.empty)] := by
     rw [(hframe.2 "c02-parent" rfl).1]
     subst hgen
